@@ -6,9 +6,10 @@
     Definitions only (lemmas live in Proofs/Drawdown.v).
 
     Conventions: Decimal = exact rational [Qc] (rounding of Decimal division is abstracted, the
-    correspondence compares with a tolerance); DateTime<Utc> = [Z] milliseconds; i64 / u64 = [Z]
-    (no overflow); the i64 instance of welford_online::calculate_mean divides with Rust's
-    truncating [/] = [Z.quot]. *)
+    correspondence compares with a tolerance); DateTime<Utc> = [Z] NANOSECONDS since the epoch
+    (chrono's resolution, kept exact); [TimeDelta::num_milliseconds] truncates the nanosecond
+    difference towards zero = [Z.quot _ 1000000]; i64 / u64 = [Z] (no overflow); the i64 instance of
+    welford_online::calculate_mean divides with Rust's truncating [/] = [Z.quot]. *)
 From Coq Require Import List ZArith QArith Qcanon Bool.
 Import ListNotations.
 Local Open Scope Qc_scope.
@@ -31,13 +32,14 @@ Definition checked_div (a b : Qc) : option Qc := if Qceqb b 0 then None else Som
 (* ------------------------------------------------------------------------------------------ *)
 (** * Timed points and drawdowns                                                                *)
 
-(** a point of the curve: (time in ms, value) *)
+(** a point of the curve: (time in ns, value) *)
 Notation pt := (Z * Qc)%type.
 
 (** [Drawdown { value, time_start, time_end }] *)
 Record drawdown := mkDD { dd_value : Qc; dd_start : Z; dd_end : Z }.
-(** [Drawdown::duration().num_milliseconds()] *)
-Definition dd_ms (d : drawdown) : Z := (dd_end d - dd_start d)%Z.
+(** [Drawdown::duration().num_milliseconds()]: whole milliseconds of the nanosecond difference,
+    truncated towards zero *)
+Definition dd_ms (d : drawdown) : Z := Z.quot (dd_end d - dd_start d) 1000000.
 
 (* ------------------------------------------------------------------------------------------ *)
 (** * DrawdownGenerator (drawdown/mod.rs)                                                       *)
@@ -259,8 +261,9 @@ Definition sum_depth (ds : list drawdown) : Qc := fold_right (fun d s => dd_valu
 Definition sum_ms (ds : list drawdown) : Z := fold_right (fun d s => dd_ms d + s)%Z 0%Z ds.
 Definition len (ds : list drawdown) : Z := Z.of_nat (length ds).
 
-(** a mean report [m] is the average of [ds] in depth (exactly) and in duration (up to the drift
-    (n-1)/2 ms of the truncating integer recurrence) *)
+(** a mean report [m] is the average of [ds] in depth (exactly) and in duration — the durations
+    being the whole milliseconds [dd_ms] the code reports — up to the drift (n-1)/2 ms of the
+    truncating integer recurrence *)
 Definition is_mean_of (ds : list drawdown) (m : meandd) : Prop :=
   m_depth m * QcofZ (len ds) = sum_depth ds /\
   (2 * Z.abs (len ds * m_ms m - sum_ms ds) <= len ds * (len ds - 1))%Z.
